@@ -16,6 +16,7 @@ import Flowjaxv.Driver.TraceDrv
 import Flowjaxv.Driver.Losses
 import Flowjaxv.Driver.NetInverse
 import Flowjaxv.Driver.Planar
+import Flowjaxv.Driver.BnafLd
 /-!
 Model driver: `lake env lean --run Driver.lean < ops.txt`.  One op per line in, one line out
 (`ERR <msg>` when the model rejects the op).
@@ -55,6 +56,8 @@ def dispatch (line : String) : String :=
       | "accessor" => accessor args
       | "mixture" => mixture args
       | "mixweights" => mixweights args
+      | "mixsample" => mixsample args
+      | "mvn" => mvnOp args
       | "bis" => bis args
       | "adapt" => adapt args
       | "ar" => ar args
@@ -92,6 +95,11 @@ def dispatch (line : String) : String :=
       | "addcond" => addcond args
       | "planar" => planar args
       | "triaff" => triaff args
+      | "bnafld" => bnafld args
+      | "bnafild" => bnafild args
+      | "bnaflj" => bnaflj args
+      | "actlj" => actlj args
+      | "lmme" => lmme args
       | _ => .error s!"unknown op {op}"
     match r with
     | .ok s => s
